@@ -11,9 +11,9 @@ Proof. exact enc_impl_is_spec. Qed.
 
 (* the specification is defined on every well-formed value: no panic (element counts below
    2^32, bit counts below 2^29 are part of wf), and decodes back (hence is injective) *)
-Theorem C01_spec_defined_and_decodable : forall t v, nobits t = true -> wf_ty t = true -> wf t v = true ->
+Theorem C01_spec_defined_and_decodable : forall t v, wf_ty t = true -> wf t v = true ->
   forall bs, enc_spec t v = EOk bs -> forall known rest, runo (dec t) known (bs ++ rest) = OOk (canon t v) rest.
-Proof. intros t v Hb Ht Hw bs He known rest. now apply roundtrip. Qed.
+Proof. intros t v Ht Hw bs He known rest. now apply roundtrip. Qed.
 
 (* the deque's two slices and a slice's memory image encode like the element sequence *)
 Theorem C01_two_slices : forall c t s0 s1,
